@@ -38,7 +38,7 @@ Proof. exact type_safety_model. Qed.
 (* the value of a typed block inhabits the semantic interpretation of its own annotation (so the
    contract derived from that annotation cannot blame the block) *)
 Theorem C01_typed_result_in_type : forall Sg, sig_sound Sg ->
-  forall n e T v, has_type Sg [] e T -> eval n MTyped [] e = Ok v -> V T [] v.
+  forall n e T v, has_type Sg [] e T -> eval n MTyped [] e = Ok v -> V T [] [] v.
 Proof. exact typed_result_in_type. Qed.
 
 (* certificates: the executable checker (extracted and run on every generated program) only accepts
